@@ -602,3 +602,22 @@ M("c12-dedupe-by-route-points", "C12", "cola/libavoid/hyperedgetree.cpp",
   mention=["TREE-WRITEBACK", "entered in the other dimension"])
 M("c12-partner-copy-not-flagged", "C12", "cola/libavoid/mtst.cpp",
   "                prevNode->isPinDummyEndpoint = true;", "                prevNode->visited = false;", mention=["DUMMY-NODES-FLAGGED"])
+
+# ---------------------------------------------------------------- C10 settings
+M("c10-transaction-ignores-settings-flag", "C10", "cola/libavoid/router.cpp",
+  "    if ((actionList.empty() && (m_hyperedge_rerouter.count() == 0) &&\n         (m_settings_changes == false)) || SimpleRouting)",
+  "    if ((actionList.empty() && (m_hyperedge_rerouter.count() == 0)) || SimpleRouting)", mention=["SETTINGS-DIRTY", "processTransaction"])
+M("c10-option-setter-not-dirty", "C10", "cola/libavoid/router.cpp",
+  "    m_routing_options[option] = value;\n    m_settings_changes = true;", "    m_routing_options[option] = value;", mention=["SETTINGS-DIRTY", "setRoutingOption"])
+
+# ---------------------------------------------------------------- C12 improver keeps connectors
+M("c12-zero-length-collapses-terminal-edge", "C12", "cola/libavoid/hyperedgeimprover.cpp",
+  "                    if (other->edges.size() > 1)\n                    {\n                        target = self;\n                        source = other;\n                    }",
+  "                    target = self;\n                    source = other;", mention=["ZERO-LENGTH-EDGES", "junction moved onto the terminal"])
+M("c12-junction-moves-onto-terminal", "C12", "cola/libavoid/hyperedgeimprover.cpp",
+  "        if (currNode->junction || (currNode->edges.size() == 1))", "        if (currNode->junction)", mention=["JUNCTION-MOVES"])
+M("c12-terminal-merged-as-common-node", "C12", "cola/libavoid/hyperedgeimprover.cpp",
+  "                if (otherNode->junction || (otherNode->edges.size() == 1))", "                if (otherNode->junction)", mention=["JUNCTION-MOVES"])
+M("c12-shift-onto-terminal", "C12", "cola/libavoid/hyperedgeimprover.cpp",
+  "                // The next position would collapse a whole connector.\n                m_balance_count = 0;",
+  "                // The next position would collapse a whole connector.", mention=["SHIFT-NOT-ONTO-TERMINAL"])
